@@ -234,6 +234,150 @@ example : ({ compress := true, subprotocol := [] } : Dialed).compress =
     ((parseExtensions (witReply.values "Sec-Websocket-Extensions")).any (fun e => e.name == strBytes "permessage-deflate")) :=
   client_any_reply witKey witReply _ witReply_ok
 
+
+/-! #### Dialer × Upgrader composed (`both_or_neither`, `handshake_succeeds`, `reply_is_what_the_101_says`) -/
+
+open WS.Agree
+
+/-- ws://example.com -/
+def witUrl : Url := { scheme := strBytes "ws", host := strBytes "example.com", hasUser := false }
+/-- Dialers asking for subprotocol "chat", with / without EnableCompression -/
+def witDOn : DCfg := { subprotocols := [strBytes "chat"], enableCompression := true }
+def witDOff : DCfg := { subprotocols := [strBytes "chat"], enableCompression := false }
+/-- Upgraders: EnableCompression and Subprotocols ["chat"]; no compression and no subprotocol list -/
+def witUOn : UCfg := { witU with subprotocols := some [strBytes "chat"] }
+def witUOff : UCfg := { witU with enableCompression := false }
+def witOh : Option Bytes := some (strBytes "example.com")
+
+/-- witnesses for `handshake_succeeds`: the RFC 6455 sample key is a valid challenge key (16 bytes base64) -/
+def witKey_valid : isValidChallengeKey witKey = true := by decide +kernel
+
+/-- non-vacuity of `handshake_succeeds`: all hypotheses hold for ws://example.com, the sample key, a
+    working Hijack and the default origin policy, for each of the four EnableCompression combinations
+    (no SHA-1 evaluation needed: the accept token stays symbolic) -/
+def witHS (d : DCfg) (u : UCfg) (hco : u.checkOrigin = none ∨ u.checkOrigin = some true) :
+    ∃ host h bytes a, buildRequest d witUrl witKey [] = .ok (host, h) ∧
+      upgrade u (reqOf host h) none witOh witHj = .ok (bytes, a) :=
+  handshake_succeeds d u witUrl witKey witOh witHj (Or.inl rfl) rfl witKey_valid rfl hco
+
+/-- … and of `both_or_neither` on each of them: both hypotheses hold (they are what `witHS` returns), the
+    theorem applies, and the concrete outcome is: Dialer on, Upgrader on → both compress -/
+example : ∃ host h bytes a, buildRequest witDOn witUrl witKey [] = .ok (host, h) ∧
+    upgrade witUOn (reqOf host h) none witOh witHj = .ok (bytes, a) ∧ a.compress = true ∧
+    ∃ dl, checkReply witKey (replyOf a (Spec.acceptKey Gen.keyGUID witKey)) = .ok dl ∧ dl.compress = true := by
+  obtain ⟨host, h, bytes, a, hb, hu⟩ := witHS witDOn witUOn (Or.inl rfl)
+  obtain ⟨hc, dl, hdl, hdc⟩ := both_or_neither witDOn witUOn witUrl witKey host h witOh witHj bytes a hb hu
+  exact ⟨host, h, bytes, a, hb, hu, hc, dl, hdl, hdc.trans hc⟩
+
+/-- Dialer on, Upgrader off → neither compresses -/
+example : ∃ host h bytes a, buildRequest witDOn witUrl witKey [] = .ok (host, h) ∧
+    upgrade witUOff (reqOf host h) none witOh witHj = .ok (bytes, a) ∧ a.compress = false ∧
+    ∃ dl, checkReply witKey (replyOf a (Spec.acceptKey Gen.keyGUID witKey)) = .ok dl ∧ dl.compress = false := by
+  obtain ⟨host, h, bytes, a, hb, hu⟩ := witHS witDOn witUOff (Or.inl rfl)
+  obtain ⟨hc, dl, hdl, hdc⟩ := both_or_neither witDOn witUOff witUrl witKey host h witOh witHj bytes a hb hu
+  exact ⟨host, h, bytes, a, hb, hu, hc, dl, hdl, hdc.trans hc⟩
+
+/-- Dialer off, Upgrader on → neither compresses -/
+example : ∃ host h bytes a, buildRequest witDOff witUrl witKey [] = .ok (host, h) ∧
+    upgrade witUOn (reqOf host h) none witOh witHj = .ok (bytes, a) ∧ a.compress = false ∧
+    ∃ dl, checkReply witKey (replyOf a (Spec.acceptKey Gen.keyGUID witKey)) = .ok dl ∧ dl.compress = false := by
+  obtain ⟨host, h, bytes, a, hb, hu⟩ := witHS witDOff witUOn (Or.inl rfl)
+  obtain ⟨hc, dl, hdl, hdc⟩ := both_or_neither witDOff witUOn witUrl witKey host h witOh witHj bytes a hb hu
+  exact ⟨host, h, bytes, a, hb, hu, hc, dl, hdl, hdc.trans hc⟩
+
+/-- Dialer off, Upgrader off → neither compresses -/
+example : ∃ host h bytes a, buildRequest witDOff witUrl witKey [] = .ok (host, h) ∧
+    upgrade witUOff (reqOf host h) none witOh witHj = .ok (bytes, a) ∧ a.compress = false ∧
+    ∃ dl, checkReply witKey (replyOf a (Spec.acceptKey Gen.keyGUID witKey)) = .ok dl ∧ dl.compress = false := by
+  obtain ⟨host, h, bytes, a, hb, hu⟩ := witHS witDOff witUOff (Or.inl rfl)
+  obtain ⟨hc, dl, hdl, hdc⟩ := both_or_neither witDOff witUOff witUrl witKey host h witOh witHj bytes a hb hu
+  exact ⟨host, h, bytes, a, hb, hu, hc, dl, hdl, hdc.trans hc⟩
+
+/-- `handshake_succeeds`, further instance: a wss URL and an application CheckOrigin that returns true -/
+example : ∃ host h bytes a,
+    buildRequest witDOn { witUrl with scheme := strBytes "wss" } witKey [] = .ok (host, h) ∧
+    upgrade { witUOn with checkOrigin := some true } (reqOf host h) none none witHj = .ok (bytes, a) :=
+  handshake_succeeds witDOn { witUOn with checkOrigin := some true } { witUrl with scheme := strBytes "wss" }
+    witKey none witHj (Or.inr rfl) rfl witKey_valid rfl (Or.inr rfl)
+
+/-! the on / on configuration evaluated: the request the Dialer builds, what the Upgrader answers -/
+
+/-- the header map DialContext builds for `witDOn` -/
+def witHdrOn : Client.Hdr :=
+  [(strBytes "Upgrade", [strBytes "websocket"]), (strBytes "Connection", [strBytes "Upgrade"]),
+   (strBytes "Sec-WebSocket-Key", [witKey]), (strBytes "Sec-WebSocket-Version", [strBytes "13"]),
+   (strBytes "Sec-WebSocket-Protocol", [strBytes "chat"]),
+   (strBytes "Sec-WebSocket-Extensions", [witOffer])]
+
+/-- Boolean test "x = .ok v" (`Except` has no `DecidableEq` instance) -/
+def witBuildIs (x : Except DErr (Bytes × Client.Hdr)) (v : Bytes × Client.Hdr) : Bool :=
+  match x with | .ok v' => v' == v | .error _ => false
+def witBuildIs_sound {x : Except DErr (Bytes × Client.Hdr)} {v : Bytes × Client.Hdr} (h : witBuildIs x v = true) :
+    x = .ok v := by
+  cases x <;> simp_all [witBuildIs]
+
+/-- first hypothesis of `both_or_neither`, evaluated -/
+def witBuildOn : buildRequest witDOn witUrl witKey [] = .ok (strBytes "example.com", witHdrOn) :=
+  witBuildIs_sound (by decide +kernel)
+
+/-- Boolean test "x = .ok (_, a) with these 101 lines, subprotocol and compression flag" -/
+def witUpIs (x : Except Reject (Bytes × Accepted)) (lines : List Bytes) (sub : Bytes) (c : Bool) : Bool :=
+  match x with | .ok (_, a) => a.lines == lines && a.subprotocol == sub && a.compress == c | .error _ => false
+def witUpIs_sound {x : Except Reject (Bytes × Accepted)} {lines : List Bytes} {sub : Bytes} {c : Bool}
+    (h : witUpIs x lines sub c = true) :
+    ∃ b a, x = .ok (b, a) ∧ a.lines = lines ∧ a.subprotocol = sub ∧ a.compress = c := by
+  cases x with
+  | error e => simp [witUpIs] at h
+  | ok p =>
+    obtain ⟨b, a⟩ := p
+    simp only [witUpIs, Bool.and_eq_true, beq_iff_eq] at h
+    exact ⟨b, a, rfl, h.1.1, h.1.2, h.2⟩
+
+/-- the 101 of the RFC 6455 §1.3 sample key, with subprotocol and extension lines -/
+def witLinesOn : List Bytes :=
+  [strBytes "HTTP/1.1 101 Switching Protocols", strBytes "Upgrade: websocket", strBytes "Connection: Upgrade",
+   strBytes "Sec-WebSocket-Accept: s3pPLMBiTxaQ9kYGzzhZRbK+xOo=", strBytes "Sec-WebSocket-Protocol: chat",
+   strBytes "Sec-WebSocket-Extensions: permessage-deflate; server_no_context_takeover; client_no_context_takeover"]
+
+/-- second hypothesis of `both_or_neither` / the hypothesis of `reply_is_what_the_101_says`, evaluated
+    (the kernel runs SHA-1 + base64 once): Upgrade accepts, selects "chat", compresses, and writes these lines -/
+def witUpOn : ∃ b a, upgrade witUOn (reqOf (strBytes "example.com") witHdrOn) none witOh witHj = .ok (b, a) ∧
+    a.lines = witLinesOn ∧ a.subprotocol = strBytes "chat" ∧ a.compress = true :=
+  witUpIs_sound (by decide +kernel)
+
+/-- `both_or_neither` instantiated on the evaluated pair: the theorem's value for `a.compress` (on && on)
+    agrees with the evaluated one, and the Dialer accepts the 101 with compression on -/
+example : ∃ b a, upgrade witUOn (reqOf (strBytes "example.com") witHdrOn) none witOh witHj = .ok (b, a) ∧
+    a.lines = witLinesOn ∧ a.compress = (witDOn.enableCompression && witUOn.enableCompression) ∧
+    ∃ dl, checkReply witKey (replyOf a (Spec.acceptKey Gen.keyGUID witKey)) = .ok dl ∧ dl.compress = true := by
+  obtain ⟨b, a, hu, hl, _, hc⟩ := witUpOn
+  obtain ⟨hc', dl, hdl, hdc⟩ := both_or_neither witDOn witUOn witUrl witKey _ _ witOh witHj b a witBuildOn hu
+  exact ⟨b, a, hu, hl, hc', dl, hdl, hdc.trans hc⟩
+
+/-- non-vacuity of `reply_is_what_the_101_says`: the hypothesis holds for that upgrade, and the theorem
+    applies: the six lines `witLinesOn` are the status line plus one `Name: value` line per field of `replyOf` -/
+example : ∃ b a, upgrade witUOn (reqOf (strBytes "example.com") witHdrOn) none witOh witHj = .ok (b, a) ∧
+    ∃ names : List Bytes,
+      names.map canonicalKey = (replyOf a (Spec.acceptKey Gen.keyGUID
+        ((reqOf (strBytes "example.com") witHdrOn).get "Sec-Websocket-Key"))).hdr.map (·.1) ∧
+      witLinesOn = strBytes "HTTP/1.1 101 Switching Protocols" ::
+        (names.zip (replyOf a (Spec.acceptKey Gen.keyGUID
+          ((reqOf (strBytes "example.com") witHdrOn).get "Sec-Websocket-Key"))).hdr).map
+          (fun p => p.1 ++ strBytes ": " ++ p.2.2.headD []) := by
+  obtain ⟨b, a, hu, hl, _, _⟩ := witUpOn
+  obtain ⟨names, h1, h2⟩ := reply_is_what_the_101_says witUOn _ witOh witHj b a hu
+  exact ⟨b, a, hu, names, h1, hl ▸ h2⟩
+
+/-- `reply_is_what_the_101_says`, second instance: the RFC 6455 §1.3 request `witReq` against `witU` -/
+example : ∃ b a, upgrade witU witReq none (some (strBytes "server.example.com")) witHj = .ok (b, a) ∧
+    ∃ names : List Bytes,
+      names.map canonicalKey = (replyOf a (Spec.acceptKey Gen.keyGUID (witReq.get "Sec-Websocket-Key"))).hdr.map (·.1) ∧
+      a.lines = strBytes "HTTP/1.1 101 Switching Protocols" ::
+        (names.zip (replyOf a (Spec.acceptKey Gen.keyGUID (witReq.get "Sec-Websocket-Key"))).hdr).map
+          (fun p => p.1 ++ strBytes ": " ++ p.2.2.headD []) := by
+  obtain ⟨⟨b, a⟩, h⟩ := witUp_ok
+  exact ⟨b, a, h, reply_is_what_the_101_says witU witReq _ witHj b a h⟩
+
 end NonVacuity
 
 end WS.Props.C15
